@@ -136,7 +136,7 @@ func (engC15) Gen(r *Rng, s *Script, idx int, tier string) {
 		if i >= NFormats {
 			f = []int{FmtText, FmtText, FmtMD, FmtHTML, FmtJSON, FmtCSV}[r.Intn(6)]
 		}
-		st := Step{Op: "render", A: f, B: r.Intn(NDecoChoices - 1), C: []int{ViaPkg, ViaFresh, ViaFresh, ViaAuto, ViaReused}[r.Intn(5)], D: r.Intn(16), E: r.Range(1, 99)}
+		st := Step{Op: "render", A: f, B: r.Intn(NDecoChoices - 1), C: []int{ViaPkg, ViaFresh, ViaFresh, ViaAuto, ViaReused, ViaAutoFn}[r.Intn(6)], D: r.Intn(16), E: r.Range(1, 99)}
 		s.Steps = append(s.Steps, st)
 	}
 }
